@@ -80,9 +80,24 @@ pub trait GetPacketNumberLength {
 
     /// Get the encoding length of the Packet Number
     fn pn_len(&self) -> Result<u8, Error>;
+
+    /// Get the encoding length of the Packet Number without looking at the reserved bits.
+    ///
+    /// The reserved bits are covered by packet protection; they can only be judged after
+    /// the packet has been authenticated, see [`GetPacketNumberLength::check_reserved_bits`].
+    fn pn_len_unchecked(&self) -> u8;
+
+    /// Check that the reserved bits are zero. Only meaningful on an authenticated packet.
+    fn check_reserved_bits(&self) -> Result<(), Error> {
+        self.pn_len().map(|_| ())
+    }
 }
 
 impl<const R: u8> GetPacketNumberLength for SpecificBits<R> {
+    fn pn_len_unchecked(&self) -> u8 {
+        (self.0 & Self::PN_LEN_MASK) + 1
+    }
+
     fn pn_len(&self) -> Result<u8, Error> {
         let reserved_bit = self.0 & R;
         if reserved_bit == 0 {
